@@ -48,6 +48,9 @@ type StressCase struct {
 	Flusher int       `json:"flusher"` // 0 periodic flusher only, 1 tight loop of Flush calls, 2 Flush every ~100us
 	SyncUS  int       `json:"sync_us"`
 	GCUS    int       `json:"gc_us"` // 0: collectors off
+	// GCLimitUS: time limit of the periodic collectors' cycles (0 = none), so
+	// that cycles are cut short by the clock and resumed by the next tick.
+	GCLimitUS int `json:"gc_limit_us,omitempty"`
 }
 
 type stressStats struct {
@@ -118,6 +121,7 @@ func genStress(t *rapid.T, mode int) StressCase {
 	c.SyncUS = []int{200, 1000, 5000}[rapid.IntRange(0, 2).Draw(t, "sync")]
 	if mode != stressFlush {
 		c.GCUS = []int{100, 300, 1000}[rapid.IntRange(0, 2).Draw(t, "gc")]
+		c.GCLimitUS = []int{0, 20, 100, 500}[weighted(t, "gclimit", []int{3, 1, 1, 1})]
 	}
 	return c
 }
@@ -143,7 +147,7 @@ func runStress(c StressCase, fsckOnly bool) (st stressStats, v *Violation) {
 	dir := newScratch("stress")
 	defer os.RemoveAll(dir)
 	gcI := time.Duration(c.GCUS) * time.Microsecond
-	s, err := openStore(dir, c.Cfg, store.GCInterval(gcI), store.SyncInterval(time.Duration(c.SyncUS)*time.Microsecond))
+	s, err := openStore(dir, c.Cfg, store.GCInterval(gcI), store.GCTimeLimit(time.Duration(c.GCLimitUS)*time.Microsecond), store.SyncInterval(time.Duration(c.SyncUS)*time.Microsecond))
 	if err != nil {
 		panic(infraError{err})
 	}
